@@ -172,17 +172,17 @@ func infoOf(fi os.FileInfo) *Info {
 // Res is the observable outcome of one call.
 type Res struct {
 	// Contract: set when the call broke the io.Reader / io.Writer contract (0 <= n <= len(p))
-	Contract string `json:"contract,omitempty"`
-	Class string   `json:"class"`
-	Err   string   `json:"err,omitempty"`
-	N     int64    `json:"n,omitempty"`
-	Data  []byte   `json:"-"`
-	Sum   string   `json:"sum,omitempty"`
-	EOF   bool     `json:"eof,omitempty"`
-	Names []string `json:"names,omitempty"`
-	Info  *Info    `json:"info,omitempty"`
-	Infos []*Info  `json:"infos,omitempty"`
-	Str   string   `json:"str,omitempty"`
+	Contract string   `json:"contract,omitempty"`
+	Class    string   `json:"class"`
+	Err      string   `json:"err,omitempty"`
+	N        int64    `json:"n,omitempty"`
+	Data     []byte   `json:"-"`
+	Sum      string   `json:"sum,omitempty"`
+	EOF      bool     `json:"eof,omitempty"`
+	Names    []string `json:"names,omitempty"`
+	Info     *Info    `json:"info,omitempty"`
+	Infos    []*Info  `json:"infos,omitempty"`
+	Str      string   `json:"str,omitempty"`
 }
 
 func (r Res) OK() bool { return r.Class == "ok" }
